@@ -33,6 +33,8 @@ def build_conf_table(p):
     t = _build_conf_table(p)
     if p.get("hash_twins"):
         datagen.plant_hash_twins(t, p["hash_twins"], random.Random(f"twins|{p['data_seed']}"))
+    if p.get("sibling_groups"):
+        datagen.plant_sibling_groups(t, random.Random(f"sibling|{p['data_seed']}"))
     return t
 
 
